@@ -454,3 +454,79 @@ func ruleSpanCoversRequest(c *Ctx, id string) {
 		c.check(id+":freelist.(*hashMap).Allocate:larger-span-covers-n", al, al.Pos(), "while iterating over the span sizes, an id is handed out exactly for sizes >= n (tabulated for n=3 over sizes 1,2,3,4,9)", larger >= 1 && badLarger == "", badLarger)
 	})
 }
+
+// ---------------------------------------------------------------------------------------------
+// C11.R10 / C13.R11  second-meta-probing-complete
+//
+// When meta page 0 is damaged the page size is found by probing for meta page 1 at every power-of-two offset from
+// 1 KiB to 16 MiB that lies inside the file. The ONLY reason to skip a candidate is that it lies beyond the end of
+// the file: a file need not be a whole number of pages (AllocSize and MaxSize are arbitrary byte counts), so any
+// further filter makes Open reject a database whose second meta page is intact (seed C11c).
+func ruleSecondMetaProbing(c *Ctx, id string) {
+	c.rule(id, "second-meta-probing-complete", 1, func() {
+		fn := c.fn("bbolt.(*DB).getPageSizeFromSecondMeta")
+		reads := callsIn(fn, "os.(*File).ReadAt")
+		if len(reads) == 0 {
+			c.check(id+":(*DB).getPageSizeFromSecondMeta:shape", fn, fn.Pos(), "the second meta page is probed with file.ReadAt", false, "no ReadAt found")
+			return
+		}
+		// the function is executed for several file sizes with every probe readable but invalid, so that the loop
+		// walks through all its candidates; the offsets handed to ReadAt are recorded
+		bad := ""
+		rows := 0
+		for _, fileSize := range []int64{40000, 3 * 1000 * 1000, 1 << 24, (1 << 24) + 4096 + 7} {
+			rows++
+			var probed []int64
+			ev := &Evaluator{
+				MaxSteps: 20000,
+				CallN: func(call *ssa.Call, args []V) ([]V, bool) {
+					n := calleeOf(call).Name()
+					switch {
+					case strings.HasSuffix(n, "(*File).ReadAt"):
+						if off, ok := args[len(args)-1].Int(); ok {
+							probed = append(probed, off)
+						} else {
+							probed = append(probed, -1)
+						}
+						return []V{iV(0x1000), nilV}, true
+					case strings.HasSuffix(n, "(*File).Stat"):
+						return []V{symV("info"), nilV}, true
+					}
+					return nil, false
+				},
+				Call: func(call *ssa.Call, args []V) (V, bool) {
+					if call.Call.IsInvoke() && call.Call.Method.Name() == "Size" {
+						return iV(fileSize), true
+					}
+					if calleeOf(call).Builtin == "len" {
+						return iV(0x1000), true
+					}
+					if strings.HasSuffix(calleeOf(call).Name(), "(*Meta).Validate") {
+						return symV("invalid"), true
+					}
+					if call.Call.Signature().Results().Len() == 1 {
+						return symV("call:" + calleeOf(call).Name()), true
+					}
+					return unkV, false
+				},
+				Load:  func(u *ssa.UnOp) (V, bool) { return unkV, false },
+				Param: func(p *ssa.Parameter) (V, bool) { return symV("param:" + p.Name()), true },
+			}
+			o := ev.Exec(fn, nil)
+			var want []int64
+			for i := uint(0); i <= 14; i++ {
+				if pos := int64(1024) << i; pos < fileSize-1024 {
+					want = append(want, pos)
+				}
+			}
+			if o.Kind != "return" {
+				bad = fmt.Sprintf("file of %d bytes: %s", fileSize, o)
+				continue
+			}
+			if fmt.Sprint(probed) != fmt.Sprint(want) {
+				bad = fmt.Sprintf("file of %d bytes: offsets probed %v, want %v", fileSize, probed, want)
+			}
+		}
+		c.check(id+":(*DB).getPageSizeFromSecondMeta:every-candidate-probed", fn, reads[0].Pos(), fmt.Sprintf("every power-of-two offset 1KiB..16MiB that lies inside the file is read, whatever the file size is a multiple of (executed for %d file sizes)", rows), bad == "", bad)
+	})
+}
